@@ -84,11 +84,14 @@ pub struct RefSgr {
     pub mode: UlMode,
     /// number of SGR sequences applied
     pub applied: u64,
+    /// `4:n` with an underline style the type cannot express (n >= 6): false = the code changes nothing,
+    /// true = it is read as plain underline.  The statement allows both readings; callers that care try both.
+    pub unknown_underline_is_plain: bool,
 }
 
 impl RefSgr {
     pub fn new(mode: UlMode) -> Self {
-        RefSgr { s: SgrState::default(), mode, applied: 0 }
+        RefSgr { s: SgrState::default(), mode, applied: 0, unknown_underline_is_plain: false }
     }
 
     /// Returns true when the event was an SGR sequence (CSI ... m without private marker / intermediates).
@@ -121,6 +124,7 @@ impl RefSgr {
                 3 => self.s.fx |= CURLY_UNDERLINE,
                 4 => self.s.fx |= DOTTED_UNDERLINE,
                 5 => self.s.fx |= DASHED_UNDERLINE,
+                _ if self.unknown_underline_is_plain => self.s.fx |= UNDERLINE,
                 _ => {}
             },
             UlMode::Select => match n {
@@ -130,6 +134,7 @@ impl RefSgr {
                 3 => self.s.fx = (self.s.fx & !UNDERLINE) | CURLY_UNDERLINE,
                 4 => self.s.fx = (self.s.fx & !UNDERLINE) | DOTTED_UNDERLINE,
                 5 => self.s.fx = (self.s.fx & !UNDERLINE) | DASHED_UNDERLINE,
+                _ if self.unknown_underline_is_plain => self.s.fx |= UNDERLINE,
                 _ => {}
             },
         }
@@ -228,7 +233,18 @@ pub fn interpret(bytes: &[u8], mode: UlMode) -> (Vec<(char, SgrState)>, SgrState
 }
 
 pub fn interpret_events(ev: &[Ev], mode: UlMode) -> (Vec<(char, SgrState)>, SgrState) {
+    interpret_events_with(ev, mode, false)
+}
+
+/// The second reading of an inexpressible underline style (`4:n`, n >= 6): plain underline.
+pub fn interpret_alt(bytes: &[u8], mode: UlMode) -> (Vec<(char, SgrState)>, SgrState) {
+    let ev = crate::vt::parse(bytes, crate::vt::Policy::Consume);
+    interpret_events_with(&ev, mode, true)
+}
+
+pub fn interpret_events_with(ev: &[Ev], mode: UlMode, unknown_underline_is_plain: bool) -> (Vec<(char, SgrState)>, SgrState) {
     let mut sgr = RefSgr::new(mode);
+    sgr.unknown_underline_is_plain = unknown_underline_is_plain;
     let mut out = vec![];
     for e in ev {
         match e {
